@@ -157,7 +157,8 @@ def convert(infile, out_file_name, **options):  # type: (str, str, **str) -> Non
             change_tuples = options['changeFrameId'].split(',')
             for renameTuple in change_tuples:
                 old, new = renameTuple.split(':')
-                frame = db.frame_by_id(canmatrix.ArbitrationId(int(old)))
+                # the frame with this identifier number, standard or extended
+                frame = next((f for f in db.frames if f.arbitration_id.id == int(old)), None)
                 if frame is not None:
                     frame.arbitration_id.id = int(new)
                 else:
